@@ -2,5 +2,6 @@ SPECIFICATION Spec
 CONSTANTS
   Redact = FALSE
   MaxSteps = 7
+  StageInKeyDir = TRUE
 INVARIANTS NoLeak AclBeforeFirstKeyFile
 CHECK_DEADLOCK FALSE
